@@ -76,6 +76,9 @@ func CheckPanics(run *core.Run, prog *load.Program) {
 					s := add("loop", "for-without-condition", x)
 					s.text = "for-without-condition"
 					s.ok, s.reason = numberingLoop(prog, info, fd, x)
+					if !s.ok {
+						s.ok, s.reason = descentLoop(info, fd, x)
+					}
 				} else {
 					s := add("loop", "for "+types.ExprString(x.Cond), x)
 					s.ok, s.reason = bd.countingLoop(x)
